@@ -327,3 +327,347 @@ Lemma strip_suffix_app p s : strip_suffix p (s ++ p) = Some s.
 Proof.
   unfold strip_suffix. rewrite rev_app_distr, strip_prefix_app, rev_involutive. reflexivity.
 Qed.
+
+(* ===== appended: generic facts used by Proofs/Merge_bridge_proofs.v ======================== *)
+
+(* --- sizes --- *)
+Lemma utf8_size_app a b : utf8_size (a ++ b) = utf8_size a + utf8_size b.
+Proof.
+  unfold utf8_size. induction a as [|x a IH]; cbn [app fold_right]; [|rewrite IH]; lia.
+Qed.
+
+Lemma utf8_size_cons c s : utf8_size (c :: s) = utf8_len c + utf8_size s.
+Proof. reflexivity. Qed.
+
+Lemma utf8_size_nil : utf8_size [] = 0.
+Proof. reflexivity. Qed.
+
+Lemma utf8_size_ascii s : forallb (fun c => c <? 128) s = true -> utf8_size s = N.of_nat (length s).
+Proof.
+  induction s as [|c s IH]; [reflexivity|]. cbn [forallb]. rewrite andb_true_iff. intros [Hc Hs].
+  rewrite utf8_size_cons, IH by exact Hs. unfold utf8_len. rewrite Hc.
+  cbn [length]. lia.
+Qed.
+
+(* --- membership as a boolean (to discharge `~ In c (lit "...")` by computation) --- *)
+Definition memb (c : char) (s : str) : bool := existsb (N.eqb c) s.
+
+Lemma memb_In c s : memb c s = true <-> In c s.
+Proof.
+  unfold memb. rewrite existsb_exists. split.
+  - intros [x [Hin Hx]]. apply N.eqb_eq in Hx. subst x. exact Hin.
+  - intros Hin. exists c. split; [exact Hin | apply N.eqb_refl].
+Qed.
+
+Lemma memb_false_notin c s : memb c s = false -> ~ In c s.
+Proof. intros H Hin. apply memb_In in Hin. congruence. Qed.
+
+(* --- starts_with --- *)
+Lemma starts_with_app p r : starts_with p (p ++ r) = true.
+Proof. apply starts_with_spec. exists r. reflexivity. Qed.
+
+Lemma starts_with_In p s c : starts_with p s = true -> In c p -> In c s.
+Proof.
+  intros H Hin. apply starts_with_spec in H. destruct H as [r ->]. apply in_or_app. left. exact Hin.
+Qed.
+
+(* a token without the delimiter c, followed by d, against a pattern whose first c-free
+   token is w *)
+Lemma starts_with_token c d w w' n r :
+  ~ In c n -> ~ In c w -> ~ In d w ->
+  starts_with (w ++ c :: w') (n ++ d :: r) = true ->
+  w = n /\ c = d /\ starts_with w' r = true.
+Proof.
+  revert n; induction w as [|x w IH]; intros n Hn Hw Hd H.
+  - destruct n as [|y n]; cbn [app starts_with] in H; apply andb_true_iff in H; destruct H as [H1 H2];
+      apply N.eqb_eq in H1.
+    + auto.
+    + exfalso. apply Hn. left. symmetry. exact H1.
+  - destruct n as [|y n]; cbn [app starts_with] in H; apply andb_true_iff in H; destruct H as [H1 H2];
+      apply N.eqb_eq in H1.
+    + exfalso. apply Hd. left. exact H1.
+    + subst y. destruct (IH n) as [-> [-> H3]]; auto.
+      * intros Hin. apply Hn. right. exact Hin.
+      * intros Hin. apply Hw. right. exact Hin.
+      * intros Hin. apply Hd. right. exact Hin.
+Qed.
+
+(* --- split_once --- *)
+Definition pre_pair (x : str) (o : option (str * str)) : option (str * str) :=
+  match o with Some (a, b) => Some (x ++ a, b) | None => None end.
+
+Lemma split_once_unfold p s :
+  split_once p s =
+  match strip_prefix p s with
+  | Some r => Some ([], r)
+  | None => match s with
+            | [] => None
+            | c :: s' => pre_pair [c] (split_once p s')
+            end
+  end.
+Proof. destruct s; reflexivity. Qed.
+
+Lemma split_once_hit p b : split_once p (p ++ b) = Some ([], b).
+Proof. rewrite split_once_unfold, strip_prefix_app. reflexivity. Qed.
+
+(* skipping characters that are not the first character of the pattern *)
+Lemma split_once_skip c p x s :
+  ~ In c x -> split_once (c :: p) (x ++ s) = pre_pair x (split_once (c :: p) s).
+Proof.
+  induction x as [|y x IH]; intros H.
+  - cbn [app]. unfold pre_pair. destruct (split_once (c :: p) s) as [[a b]|]; reflexivity.
+  - cbn [app]. rewrite split_once_unfold. cbn [strip_prefix].
+    destruct (N.eqb_spec c y) as [->|Hne].
+    + exfalso; apply H; left; reflexivity.
+    + rewrite IH by (intros Hin; apply H; right; exact Hin).
+      unfold pre_pair. destruct (split_once (c :: p) s) as [[a b]|]; reflexivity.
+Qed.
+
+(* the first character matches but the rest of the pattern does not *)
+Lemma split_once_step c p s :
+  starts_with p s = false -> split_once (c :: p) (c :: s) = pre_pair [c] (split_once (c :: p) s).
+Proof.
+  intros H. rewrite split_once_unfold. cbn [strip_prefix]. rewrite N.eqb_refl.
+  rewrite (starts_with_false_strip _ _ H). reflexivity.
+Qed.
+
+Lemma split_once_none_notin c p x : ~ In c x -> split_once (c :: p) x = None.
+Proof.
+  intros H. rewrite <- (app_nil_r x), split_once_skip by exact H. reflexivity.
+Qed.
+
+Lemma split_once_sound p s a b : split_once p s = Some (a, b) -> s = a ++ p ++ b.
+Proof.
+  revert a; induction s as [|c s IH]; intros a; rewrite split_once_unfold.
+  - destruct (strip_prefix p []) as [r|] eqn:E; [|discriminate].
+    intros H; injection H as <- <-. apply strip_prefix_spec in E. exact E.
+  - destruct (strip_prefix p (c :: s)) as [r|] eqn:E.
+    + intros H; injection H as <- <-. apply strip_prefix_spec in E. exact E.
+    + unfold pre_pair. destruct (split_once p s) as [[a' b']|]; [|discriminate].
+      intros H; injection H as <- <-. rewrite (IH a' eq_refl). reflexivity.
+Qed.
+
+(* a doubled character as pattern: the text before the first occurrence *)
+Lemma contains_unfold_cons p c s :
+  contains p (c :: s) = false -> strip_prefix p (c :: s) = None /\ contains p s = false.
+Proof.
+  unfold contains. rewrite split_once_unfold.
+  destruct (strip_prefix p (c :: s)); [discriminate|].
+  unfold pre_pair. destruct (split_once p s) as [[a b]|]; [discriminate|]. auto.
+Qed.
+
+Lemma ends_with_cons p c s : s <> [] -> ends_with [p] (c :: s) = ends_with [p] s.
+Proof.
+  intros Hs. destruct (@exists_last _ s Hs) as [s' [z ->]].
+  unfold ends_with. change (c :: s' ++ [z]) with ((c :: s') ++ [z]).
+  rewrite !rev_app_distr. reflexivity.
+Qed.
+
+Lemma ends_with_single_snoc p s z : ends_with [p] (s ++ [z]) = (p =? z).
+Proof.
+  unfold ends_with. rewrite rev_app_distr. cbn [rev app starts_with]. apply andb_true_r.
+Qed.
+
+Lemma split_once_double c a b :
+  contains [c; c] a = false -> ends_with [c] a = false ->
+  split_once [c; c] (a ++ [c; c] ++ b) = Some (a, b).
+Proof.
+  induction a as [|x a IH]; intros Hc He.
+  - exact (split_once_hit [c; c] b).
+  - apply contains_unfold_cons in Hc. destruct Hc as [Hs Hc].
+    destruct a as [|y a].
+    + (* a = [x], x <> c *)
+      change [x] with ([] ++ [x]) in He. rewrite ends_with_single_snoc in He.
+      apply N.eqb_neq in He.
+      change (([x]) ++ [c; c] ++ b) with ([x] ++ ([c; c] ++ b)).
+      rewrite split_once_skip.
+      * rewrite split_once_hit. reflexivity.
+      * intros [H|[]]. congruence.
+    + rewrite ends_with_cons in He by discriminate.
+      specialize (IH Hc He).
+      cbn [app]. rewrite split_once_unfold.
+      cbn [app] in IH. rewrite IH. cbn [strip_prefix].
+      cbn [strip_prefix] in Hs.
+      destruct (c =? x); [|reflexivity].
+      destruct (c =? y); [discriminate|reflexivity].
+Qed.
+
+Lemma contains_double_snoc c a :
+  contains [c; c] a = false -> ends_with [c] a = false -> contains [c; c] (a ++ [c]) = false.
+Proof.
+  induction a as [|x a IH]; intros Hc He.
+  - unfold contains. cbn [app]. rewrite split_once_unfold. cbn [strip_prefix].
+    destruct (c =? c); reflexivity.
+  - apply contains_unfold_cons in Hc. destruct Hc as [Hs Hc].
+    assert (He' : ends_with [c] a = false).
+    { destruct a as [|y a]; [reflexivity|]. rewrite ends_with_cons in He by discriminate. exact He. }
+    specialize (IH Hc He'). unfold contains in IH |- *.
+    cbn [app]. rewrite split_once_unfold.
+    destruct (split_once [c; c] (a ++ [c])) as [[u v]|]; [discriminate|].
+    cbn [strip_prefix].
+    destruct (N.eqb_spec c x) as [->|Hne]; [|reflexivity].
+    destruct a as [|y a].
+    + unfold ends_with in He. cbn [rev app starts_with] in He. rewrite N.eqb_refl in He.
+      discriminate.
+    + cbn [app strip_prefix]. cbn [strip_prefix] in Hs. rewrite N.eqb_refl in Hs.
+      destruct (x =? y); [discriminate|reflexivity].
+Qed.
+
+(* --- split --- *)
+Lemma split_fuel_irrel p :
+  p <> [] -> forall f1 f2 s, (length s < f1)%nat -> (length s < f2)%nat ->
+  split_fuel f1 p s = split_fuel f2 p s.
+Proof.
+  intros Hp. induction f1 as [|f1 IH]; intros f2 s H1 H2; [lia|].
+  destruct f2 as [|f2]; [lia|]. cbn [split_fuel].
+  destruct (split_once p s) as [[a b]|] eqn:E; [|reflexivity].
+  apply split_once_sound in E. f_equal. apply IH.
+  - subst s. rewrite !app_length in H1. destruct p; [congruence|]. cbn [length] in H1. lia.
+  - subst s. rewrite !app_length in H2. destruct p; [congruence|]. cbn [length] in H2. lia.
+Qed.
+
+Lemma split_fuel_S f p s :
+  split_fuel (S f) p s =
+  match split_once p s with Some (a, b) => a :: split_fuel f p b | None => [s] end.
+Proof. reflexivity. Qed.
+
+Lemma split_cons p s a b : p <> [] -> split_once p s = Some (a, b) -> split p s = a :: split p b.
+Proof.
+  intros Hp E. unfold split. rewrite (split_fuel_S (length s)). rewrite E. f_equal.
+  apply split_fuel_irrel; [exact Hp | | lia].
+  apply split_once_sound in E. subst s. rewrite !app_length. destruct p; [congruence|].
+  cbn [length]. lia.
+Qed.
+
+Lemma split_none p s : split_once p s = None -> split p s = [s].
+Proof. intros E. unfold split. cbn [split_fuel]. rewrite E. reflexivity. Qed.
+
+(* --- join --- *)
+Lemma join_cons2 sep x y r : join sep (x :: y :: r) = x ++ sep ++ join sep (y :: r).
+Proof. reflexivity. Qed.
+
+Lemma join_snoc sep l x : l <> [] -> join sep (l ++ [x]) = join sep l ++ sep ++ x.
+Proof.
+  induction l as [|y l IH]; intros H; [congruence|].
+  destruct l as [|z l].
+  - reflexivity.
+  - change ((y :: z :: l) ++ [x]) with (y :: z :: (l ++ [x])).
+    rewrite !join_cons2. change (z :: l ++ [x]) with ((z :: l) ++ [x]).
+    rewrite IH by discriminate. rewrite !app_assoc. reflexivity.
+Qed.
+
+Lemma In_join c sep l : In c (join sep l) -> In c sep \/ exists x, In x l /\ In c x.
+Proof.
+  induction l as [|x l IH]; [intros []|].
+  destruct l as [|y l].
+  - intros H. right. exists x. split; [left; reflexivity | exact H].
+  - rewrite join_cons2. intros H. apply in_app_or in H. destruct H as [H|H].
+    + right. exists x. split; [left; reflexivity | exact H].
+    + apply in_app_or in H. destruct H as [H|H]; [left; exact H|].
+      destruct (IH H) as [H'|[z [Hz Hc]]]; [left; exact H'|].
+      right. exists z. split; [right; exact Hz | exact Hc].
+Qed.
+
+(* split undoes join when the pieces avoid the first character of the separator *)
+Lemma split_join c sep l :
+  l <> [] -> (forall x, In x l -> ~ In c x) -> split (c :: sep) (join (c :: sep) l) = l.
+Proof.
+  induction l as [|x l IH]; intros Hl H; [congruence|].
+  destruct l as [|y l].
+  - cbn [join]. apply split_none. apply split_once_none_notin. apply H. left. reflexivity.
+  - rewrite join_cons2. rewrite (split_cons (c :: sep) _ x (join (c :: sep) (y :: l))).
+    + f_equal. apply IH; [discriminate|]. intros z Hz. apply H. right. exact Hz.
+    + discriminate.
+    + rewrite split_once_skip by (apply H; left; reflexivity).
+      rewrite split_once_hit. unfold pre_pair. rewrite app_nil_r. reflexivity.
+Qed.
+
+(* --- trimming by character class --- *)
+Lemma trim_start_chars_stop f c r : f c = false -> trim_start_chars f (c :: r) = c :: r.
+Proof. intros H. cbn [trim_start_chars]. rewrite H. reflexivity. Qed.
+
+Lemma trim_start_chars_go f c r : f c = true -> trim_start_chars f (c :: r) = trim_start_chars f r.
+Proof. intros H. cbn [trim_start_chars]. rewrite H. reflexivity. Qed.
+
+Lemma trim_end_chars_stop f s c : f c = false -> trim_end_chars f (s ++ [c]) = s ++ [c].
+Proof.
+  intros H. unfold trim_end_chars. rewrite rev_app_distr. cbn [rev app].
+  rewrite trim_start_chars_stop by exact H.
+  change (c :: rev s) with ([c] ++ rev s). rewrite rev_app_distr, rev_involutive. reflexivity.
+Qed.
+
+Lemma trim_end_chars_go f s c : f c = true -> trim_end_chars f (s ++ [c]) = trim_end_chars f s.
+Proof.
+  intros H. unfold trim_end_chars. rewrite rev_app_distr. cbn [rev app].
+  rewrite trim_start_chars_go by exact H. reflexivity.
+Qed.
+
+Lemma trim_end_chars_nil f : trim_end_chars f [] = [].
+Proof. reflexivity. Qed.
+
+(* --- split_char, lines --- *)
+Lemma split_char_notin d l : ~ In d l -> split_char d l = [l].
+Proof.
+  induction l as [|c l IH]; intros H; [reflexivity|].
+  cbn [split_char]. destruct (N.eqb_spec c d) as [->|Hne].
+  - exfalso. apply H. left. reflexivity.
+  - rewrite IH by (intros Hin; apply H; right; exact Hin). reflexivity.
+Qed.
+
+Lemma split_char_app d l s : ~ In d l -> split_char d (l ++ d :: s) = l :: split_char d s.
+Proof.
+  induction l as [|c l IH]; intros H.
+  - cbn [app split_char]. rewrite N.eqb_refl. reflexivity.
+  - cbn [app split_char]. destruct (N.eqb_spec c d) as [->|Hne].
+    + exfalso. apply H. left. reflexivity.
+    + rewrite IH by (intros Hin; apply H; right; exact Hin). reflexivity.
+Qed.
+
+Lemma strip_cr_snoc s c : c <> cr -> strip_cr (s ++ [c]) = s ++ [c].
+Proof.
+  intros H. unfold strip_cr. rewrite rev_app_distr. cbn [rev app].
+  apply N.eqb_neq in H. rewrite H. reflexivity.
+Qed.
+
+(* lines of a text whose split_char pieces are all non-empty *)
+Lemma lines_of_pieces s ps :
+  split_char nl s = ps -> (forall x, In x ps -> x <> []) -> lines s = map strip_cr ps.
+Proof.
+  intros E H. unfold lines. rewrite E.
+  destruct (rev ps) as [|y r] eqn:Er; [reflexivity|].
+  assert (Hy : In y ps) by (apply in_rev; rewrite Er; left; reflexivity).
+  apply H in Hy. destruct y; [congruence | reflexivity].
+Qed.
+
+(* --- trimming twice; join undoes split --- *)
+Lemma trim_start_matches_twice p s :
+  p <> [] -> starts_with p s = false -> trim_start_matches p (p ++ p ++ s) = s.
+Proof.
+  intros Hp H. unfold trim_start_matches. destruct p as [|c p]; [congruence|].
+  replace (length ((c :: p) ++ (c :: p) ++ s)) with (S (S (length p + length p + length s)))
+    by (rewrite !app_length; cbn [length]; lia).
+  rewrite !trim_start_fuel_step by discriminate. apply trim_start_fuel_none. exact H.
+Qed.
+
+Lemma trim_end_matches_twice p s :
+  p <> [] -> ends_with p s = false -> trim_end_matches p (s ++ p ++ p) = s.
+Proof.
+  intros Hp H. unfold trim_end_matches. rewrite !rev_app_distr, <- app_assoc.
+  rewrite trim_start_matches_twice; [apply rev_involutive | | exact H].
+  intros E. apply Hp. apply (f_equal (@rev _)) in E. rewrite rev_involutive in E. exact E.
+Qed.
+
+Lemma split_fuel_nonempty f p s : split_fuel f p s <> [].
+Proof. destruct f; cbn [split_fuel]; [discriminate|]. destruct (split_once p s) as [[a b]|]; discriminate. Qed.
+
+Lemma join_split_fuel f p s : join p (split_fuel f p s) = s.
+Proof.
+  revert s; induction f as [|f IH]; intros s; cbn [split_fuel]; [reflexivity|].
+  destruct (split_once p s) as [[a b]|] eqn:E; [|reflexivity].
+  apply split_once_sound in E. subst s.
+  destruct (split_fuel f p b) as [|x l] eqn:El; [exfalso; exact (split_fuel_nonempty _ _ _ El)|].
+  rewrite join_cons2, <- El, IH. reflexivity.
+Qed.
+
+Lemma join_split p s : join p (split p s) = s.
+Proof. apply join_split_fuel. Qed.
